@@ -522,7 +522,7 @@ impl Scenario for Close {
 
 pub struct Death;
 
-fn death_session(ctx: Ctx, bound: usize, drain: bool, drop_instead: bool, unwind: bool, dead_peer: bool) {
+fn death_session(ctx: Ctx, bound: usize, drain: bool, drop_instead: bool, unwind: bool, dead_peer: bool, backlog: bool) {
     let tuning = ConnectionTuning::default().mem_channel_bound(bound);
     let mut conn = match open(&ctx, ConnectionOptions::default().heartbeat(2), tuning) {
         Ok(c) => c,
@@ -536,9 +536,10 @@ fn death_session(ctx: Ctx, bound: usize, drain: bool, drop_instead: bool, unwind
     ctx.log(format!("open_channel1 -> {}", res(&ch1)));
     let ch2 = conn.open_channel(Some(2));
     ctx.log(format!("open_channel2 -> {}", res(&ch2)));
-    if dead_peer {
+    if dead_peer || backlog {
         // from here on the peer neither talks nor takes anything: whatever the client wants to
         // send (its own heartbeats included) stays in its buffer
+        // (backlog: the peer takes everything again at some point - an environment choice)
         ctx.stall_transport();
     }
     let mut actors = Vec::new();
@@ -561,7 +562,9 @@ fn death_session(ctx: Ctx, bound: usize, drain: bool, drop_instead: bool, unwind
     if let Ok(ch) = ch2 {
         actors.push(ctx.spawn("b", move |ctx| {
             for i in 0..2u8 {
-                let r = ch.basic_publish("", Publish::new(&[i; 3], "rk"));
+                // (backlog: 80 000 bytes wait in the I/O thread's buffer)
+                let body = vec![i; if backlog { 40000 } else { 3 }];
+                let r = ch.basic_publish("", Publish::new(&body, "rk"));
                 ctx.log(format!("publish{} -> {}", i, res(&r)));
             }
             // keep calling until the connection is gone (bounded)
@@ -646,6 +649,12 @@ impl Scenario for Death {
             v.push(json!({"fault": "clientexception", "bound": 16, "long": k}));
         }
         v.push(json!({"fault": "unsolicited", "bound": 16}));
+        // the connection ends while 80 000 bytes of publishes are still buffered behind a peer
+        // that stopped reading; the client's last frame (CloseOk / Close) waits behind them and
+        // everything goes out in one piece when the peer reads again
+        for fault in ["serverclose", "clientexception", "none"] {
+            v.push(json!({"fault": fault, "bound": 16, "backlog": true}));
+        }
         for bound in [1usize, 16] {
             v.push(json!({"fault": "serverclose-eof", "bound": bound}));
         }
@@ -725,7 +734,8 @@ impl Scenario for Death {
         if dead_peer {
             cfg.no_grants = true;
         }
-        Built { broker: Box::new(broker), cfg, root: Box::new(move |ctx: Ctx| death_session(ctx, bound, drain, drop_instead, unwind, dead_peer)) }
+        let backlog = p["backlog"] == true;
+        Built { broker: Box::new(broker), cfg, root: Box::new(move |ctx: Ctx| death_session(ctx, bound, drain, drop_instead, unwind, dead_peer, backlog)) }
     }
     fn check(&self, p: &Value, o: &Outcome, _w: &World) -> Vec<(String, String)> {
         use vh::sim::world::IoEvent;
